@@ -1317,6 +1317,50 @@ impl Azks {
 
 type AppendOnlyHelper = (Vec<AzksElement>, Vec<AzksElement>);
 
+/// Verification hooks (cargo feature `verif_hooks`, off by default): public
+/// pass-through wrappers around the crate-private [AzksElementSet] operations,
+/// used by the external property-based testing harness. No behaviour is added.
+#[cfg(feature = "verif_hooks")]
+pub mod verif_hooks {
+    use super::*;
+
+    fn build(nodes: Vec<AzksElement>, sorted: bool) -> AzksElementSet {
+        if sorted {
+            AzksElementSet::from(nodes)
+        } else {
+            AzksElementSet::Unsorted(nodes)
+        }
+    }
+
+    /// Returns true if [AzksElementSet::from] classifies the nodes as binary searchable
+    pub fn is_binary_searchable(nodes: Vec<AzksElement>) -> bool {
+        matches!(
+            AzksElementSet::from(nodes),
+            AzksElementSet::BinarySearchable(_)
+        )
+    }
+
+    /// [AzksElementSet::partition] on a set built via `From` (`sorted`) or as `Unsorted`
+    pub fn partition(
+        nodes: Vec<AzksElement>,
+        sorted: bool,
+        prefix_label: NodeLabel,
+    ) -> (Vec<AzksElement>, Vec<AzksElement>) {
+        let (l, r) = build(nodes, sorted).partition(prefix_label);
+        (l.to_vec(), r.to_vec())
+    }
+
+    /// [AzksElementSet::get_longest_common_prefix] on a set built via `From` (`sorted`) or as `Unsorted`
+    pub fn set_lcp<TC: Configuration>(nodes: Vec<AzksElement>, sorted: bool) -> NodeLabel {
+        build(nodes, sorted).get_longest_common_prefix::<TC>()
+    }
+
+    /// [AzksElementSet::contains_prefix] on a set built via `From` (`sorted`) or as `Unsorted`
+    pub fn contains_prefix(nodes: Vec<AzksElement>, sorted: bool, prefix_label: &NodeLabel) -> bool {
+        build(nodes, sorted).contains_prefix(prefix_label)
+    }
+}
+
 #[cfg(test)]
 mod tests {
     use super::*;
